@@ -400,6 +400,131 @@ def r5_server_context(ck, cx):
     ck.ob('R5', i.qn, 'constructor distinguishes single mode', seen_single > 0, detail='no-single-branch-in-init', loc=cx.floc(i))
 
 
+def r6_table_isolation(ck, cx, rule='R6'):
+    """Storage isolation: the four tables of a slave context, and the tables of different contexts, are distinct
+    objects unless the application passes the same block itself.  Decided on ModbusSlaveContext.__init__: the
+    default of every self.store[...] entry is traced to its origin; it must be a constructor / create() call
+    evaluated once per entry and per instance -- not one local shared by several entries, and not an object that
+    outlives the instance (class attribute, module global)."""
+    ck.rule(rule, 'slave-context tables are pairwise distinct fresh blocks by default: no default block shared between tables or between contexts')
+    c = cx.idx.cls('pymodbus.datastore.context.ModbusSlaveContext')
+    f = cx.method(c, '__init__')
+    ck.saw('functions', f.qn)
+    params = set(f.params) | {a.arg for a in [f.node.args.vararg, f.node.args.kwarg] if a is not None}
+    n = 0
+    for p in cx.enum(f, c, max_depth=0):
+        origins = {}
+        depth = 0
+        loop_depth_at = {}
+        for i, ev in enumerate(p.ev):
+            if ev.kind == 'loop':
+                depth += 1 if ev.a == 'enter' else (-1 if ev.a in ('exit', 'leave') else 0)
+            loop_depth_at[i] = depth
+        for i, ev in enumerate(p.ev):
+            if not (ev.kind == 'assign' and isinstance(ev.a, ast.Subscript) and U(ev.a.value) == 'self.store'):
+                continue
+            n += 1
+            key = U(ev.a.slice)
+            v = ev.node.value
+            # the default: second argument of a .get / .pop on the keyword dict, right operand of `or`, else the value itself
+            d = v
+            if isinstance(v, ast.Call) and isinstance(v.func, ast.Attribute) and v.func.attr in ('get', 'pop', 'setdefault') and len(v.args) == 2:
+                d = v.args[1]
+            elif isinstance(v, ast.BoolOp) and isinstance(v.op, ast.Or):
+                d = v.values[-1]
+            elif isinstance(v, ast.IfExp):
+                d = v.orelse if 'None' in U(v.test) and ' is None' not in U(v.test) else v.body
+            # trace a local name back to the statement that bound it
+            at, hops = i, 0
+            while isinstance(d, ast.Name) and d.id not in params and hops < 5:
+                hops += 1
+                src = None
+                for j in range(at - 1, -1, -1):
+                    e2 = p.ev[j]
+                    if e2.kind == 'assign' and isinstance(e2.a, ast.Name) and e2.a.id == d.id and e2.frame.fid == ev.frame.fid:
+                        src = j
+                        break
+                if src is None:
+                    break
+                d, at = p.ev[src].node.value, src
+            txt = U(d)
+            if isinstance(d, ast.Name) and d.id in params:
+                continue        # supplied by the application
+            if isinstance(d, ast.Call):
+                shared_in_loop = loop_depth_at.get(at, 0) < loop_depth_at.get(i, 0)
+                prev = origins.get(id(d))
+                ck.ob(rule, f.qn, 'default block of store[%s] is created for this entry alone' % key, prev is None and not shared_in_loop,
+                      detail='shared-default %s' % txt[:50], loc=cx.floc(f, ev.node),
+                      message='ModbusSlaveContext: store[%s] and store[%s] default to the same object `%s`: a write to one table changes the other'
+                              % (key, prev if prev is not None else 'the other loop iterations', txt[:60]))
+                origins.setdefault(id(d), key)
+                # the call must produce a new object: a class, or a classmethod / function returning a constructor call
+                fresh = _fresh_call(cx, d, c)
+                if fresh is False:
+                    ck.ob(rule, f.qn, 'default of store[%s] is a newly constructed block' % key, False, detail='default-not-fresh %s' % txt[:50],
+                          loc=cx.floc(f, ev.node), message='ModbusSlaveContext: the default for store[%s], `%s`, does not construct a new block' % (key, txt[:60]))
+                continue
+            # not a call: an attribute / subscript / global that outlives this __init__ call
+            root = d
+            while isinstance(root, (ast.Attribute, ast.Subscript)):
+                root = root.value
+            persistent = isinstance(d, (ast.Attribute, ast.Subscript)) or (isinstance(d, ast.Name) and d.id not in params)
+            if isinstance(root, ast.Name) and root.id == 'self':
+                # an attribute this very __init__ call has just created is per-instance: not decided here
+                base = d
+                while isinstance(base, ast.Subscript):
+                    base = base.value
+                if any(e2.kind == 'assign' and U(e2.a) == U(base) for e2 in p.ev[:i]):
+                    ck.note('store[%s] defaults to %s, created earlier in __init__: sharing between tables not decided' % (key, txt[:40]))
+                    continue
+            ck.ob(rule, f.qn, 'default block of store[%s] does not outlive the context' % key, not persistent,
+                  detail='persistent-default %s' % txt[:50], loc=cx.floc(f, ev.node),
+                  message='ModbusSlaveContext: store[%s] defaults to `%s`, an object shared by every context that omits this table: '
+                          'a write addressed to one unit changes the others' % (key, txt[:60]))
+    ck.floor(rule, n, 1, 'store entries traced')
+    # the block constructors take a private copy of the initial values
+    sq = cx.idx.cls('pymodbus.datastore.store.ModbusSequentialDataBlock')
+    init = cx.method(sq, '__init__')
+    vals = init.params[2]
+    for p in cx.enum(init, sq, max_depth=0):
+        for ev in p.ev:
+            if ev.kind == 'assign' and U(ev.a) == 'self.values':
+                ck.ob(rule, init.qn, 'sequential block keeps its own list (copy or fresh list), not the caller\'s', U(ev.node.value) != vals,
+                      detail='values-aliased', loc=cx.floc(init, ev.node),
+                      message='ModbusSequentialDataBlock stores the list it was given: two blocks built from one list share their cells')
+    cr = cx.method(sq, 'create')
+    rets = [r for r in ast.walk(cr.node) if isinstance(r, ast.Return)]
+    ck.ob(rule, cr.qn, 'create() builds a new block from a new list on every call',
+          len(rets) == 1 and isinstance(rets[0].value, ast.Call) and U(rets[0].value.func) == cr.params[0] and
+          all(not isinstance(a, (ast.Name, ast.Attribute)) for a in rets[0].value.args),
+          detail='create-not-fresh', loc=cx.floc(cr))
+
+
+def _fresh_call(cx, call, cls):
+    """True: constructs a new object; False: certainly does not; None: unknown"""
+    fn = call.func
+    mod = cls.mod
+
+    def klass(name):
+        r = cx.idx.lookup(mod, name)
+        return r[1] if r and r[0] == 'class' else None
+    if isinstance(fn, ast.Name):
+        if fn.id in ('dict', 'list', 'set'):
+            return True
+        return True if klass(fn.id) is not None else None
+    if isinstance(fn, ast.Attribute) and isinstance(fn.value, ast.Name):
+        tgt = klass(fn.value.id)
+        if tgt is not None:
+            m = cx.idx.find_method(tgt, fn.attr)
+            if m is not None:
+                rets = [r for r in ast.walk(m.node) if isinstance(r, ast.Return) and r.value is not None]
+                if rets and all(isinstance(r.value, ast.Call) for r in rets):
+                    return True
+                if rets and any(isinstance(r.value, (ast.Attribute, ast.Subscript)) for r in rets):
+                    return False
+    return None
+
+
 def run(ck, tier):
     cx = Ctx()
     ck.guard(r1_sequential_validate, ck, cx)
@@ -407,6 +532,7 @@ def run(ck, tier):
     ck.guard(r3_sparse, ck, cx)
     ck.guard(r4_context_offset, ck, cx)
     ck.guard(r5_server_context, ck, cx)
+    ck.guard(r6_table_isolation, ck, cx)
     ck.assume('Python slice, dict and set semantics are trusted')
     ck.assume('histories of operations are not decided; the rules fix the shape of every address computation')
     return cx.idx
